@@ -68,6 +68,8 @@ def pair_cases(draw, max_leaves, k=2, full=False):
 def edit_cases(draw, max_leaves):
     c = draw(pair_cases(max_leaves, full=True))
     c["edits"] = draw(st.lists(st.tuples(st.integers(0, 100), st.integers(0, 100)), min_size=1, max_size=4))
+    c["edit_kinds"] = draw(st.lists(st.sampled_from(["move", "move", "prune_leaf", "flip_rooting"]), min_size=4, max_size=4))
+    c["followup_updated"] = draw(st.booleans())
     return c
 
 
@@ -217,6 +219,16 @@ def check_pair(ctx, case):
         ctx.check(close(w, w2, o["scale"]) and close(e, e2, o["scale"]) and o["sd"] == o2["sd"], "value_symmetry", "C04.symmetry",
                   lambda: "wrf %r/%r eu %r/%r" % (w, w2, e, e2))
         same_topo = o["sd"] == 0
+        # a tree compared with itself (the very same object)
+        for name, fn in (("sd", tc.symmetric_difference), ("wrf", tc.weighted_robinson_foulds_distance), ("eu", tc.euclidean_distance)):
+            v = ctx.call("C04.self_distance:" + name, fn, t1, t1)
+            ctx.check(close(v, 0.0, o["scale"]), "distance_to_itself_is_zero", "C04.self_distance:" + name, lambda: "%s(t,t)=%r" % (name, v))
+        # repeat with the (now current) encodings
+        w3 = ctx.call("C04.wrf_updated", tc.weighted_robinson_foulds_distance, t1, t2, is_bipartitions_updated=True)
+        e3 = ctx.call("C04.eu_updated", tc.euclidean_distance, t1, t2, is_bipartitions_updated=True)
+        w4 = ctx.call("C04.wrf_updated", tc.weighted_robinson_foulds_distance, t1, t2, is_bipartitions_updated=True)
+        ctx.check(close(w3, o["wrf"], o["scale"]) and close(e3, o["eu"], o["scale"]) and close(w4, o["wrf"], o["scale"]), "repeat_with_current_encoding", "C04.repeat_updated",
+                  lambda: "wrf %r then %r want %r; eu %r want %r; t1=%s t2=%s" % (w3, w4, o["wrf"], e3, o["eu"], rt1.canon(lengths=True), rt2.canon(lengths=True)))
         if kind == "redraw" and not case["others"][0]["relength"]:
             sd = tc.symmetric_difference(t1, t2)
             w = tc.weighted_robinson_foulds_distance(t1, t2)
@@ -282,18 +294,43 @@ def check_edits(ctx, case):
     # first call populates encodings / edge maps
     compare_all(ctx, t1, t2, rts[0], rt2, rooted, True, "before-edit")
     moved = 0
-    for (xi, yi) in case["edits"]:
+    kinds = case.get("edit_kinds") or ["move"] * 4
+    for step, (xi, yi) in enumerate(case["edits"]):
+        kind = kinds[step % len(kinds)]
         cur, problems = snapshot(t1)
-        nonroot = [i for i in cur.nodes() if i != cur.root]
-        x = nonroot[xi % len(nonroot)]
-        sub = set(cur.preorder(x))
-        targets = [i for i in cur.internals() if i not in sub and i != cur.parent[x]]
-        if not targets:
-            continue
-        y = targets[yi % len(targets)]
-        px = cur.obj[cur.parent[x]]
-        px.remove_child(cur.obj[x])
-        cur.obj[y].add_child(cur.obj[x])
+        if kind == "move":
+            nonroot = [i for i in cur.nodes() if i != cur.root]
+            x = nonroot[xi % len(nonroot)]
+            sub = set(cur.preorder(x))
+            targets = [i for i in cur.internals() if i not in sub and i != cur.parent[x]]
+            if not targets:
+                continue
+            y = targets[yi % len(targets)]
+            px = cur.obj[cur.parent[x]]
+            px.remove_child(cur.obj[x])
+            cur.obj[y].add_child(cur.obj[x])
+        elif kind == "prune_leaf":
+            # the leaf set changes: both trees lose the same taxon (t2 is rebuilt fresh, t1 is edited in place and
+            # still carries whatever it cached while it had the larger leaf set)
+            lv = cur.leaves()
+            if len(lv) <= (3 if not rooted else 2) + 1:
+                continue
+            victim = cur.taxon[lv[xi % len(lv)]]
+            t1.prune_taxa_with_labels([victim])
+            keep = rt2.leafset() - frozenset([victim])
+            rt2 = rt2.restrict(keep, suppress=True)
+            rt2.length[rt2.root] = None
+            t2 = shapes.build_tree(spec_with_lengths(rt2), ns, taxa, is_rooted=t1.is_rooted)
+            ctx.cls("edits:prune_leaf")
+        else:
+            # the rooting state changes on both trees (t2 rebuilt fresh)
+            newflag = not bool(t1.is_rooted)
+            if not newflag and cur.n_leaves() < 3:
+                continue
+            t1.is_rooted = newflag
+            t2 = shapes.build_tree(spec_with_lengths(rt2), ns, taxa, is_rooted=newflag)
+            rooted = newflag
+            ctx.cls("edits:flip_rooting")
         moved += 1
         now, problems = snapshot(t1)
         if problems:
@@ -303,8 +340,24 @@ def check_edits(ctx, case):
         # emptied internal nodes would be taxon-less leaves: stop the history there (outside the domain)
         if any(now.taxon[i] is None for i in now.leaves()):
             return
-        compare_all(ctx, t1, t2, now, rt2, rooted, True, "after-edit-%d" % moved)
-        compare_all(ctx, t2, t1, rt2, now, rooted, True, "after-edit-swapped-%d" % moved)
+        if not lengths_present(now) or not lengths_present(rt2):
+            return
+        # root edges carry no length in the oracle's domain
+        ncl = now.clusters()
+        for i in now.nodes():
+            if ncl[i] == ncl[now.root] and now.length[i] is not None:
+                return
+        compare_all(ctx, t1, t2, now, rt2, rooted, True, "after-edit-%d:%s" % (moved, kind))
+        compare_all(ctx, t2, t1, rt2, now, rooted, True, "after-edit-swapped-%d:%s" % (moved, kind))
+        if case.get("followup_updated"):
+            # encodings are current right after a default-argument call: the same question asked again with
+            # is_bipartitions_updated=True must get the same answer (nothing may have been consumed from the caches)
+            o = oracle(now, rt2, rooted)
+            w = ctx.call("C04.wrf_updated", tc.weighted_robinson_foulds_distance, t1, t2, is_bipartitions_updated=True)
+            e = ctx.call("C04.eu_updated", tc.euclidean_distance, t1, t2, is_bipartitions_updated=True)
+            sd = ctx.call("C04.sd_updated", tc.symmetric_difference, t1, t2, is_bipartitions_updated=True)
+            ctx.check(close(w, o["wrf"], o["scale"]) and close(e, o["eu"], o["scale"]) and sd == o["sd"], "repeat_with_current_encoding",
+                      "C04.repeat_updated", lambda: "wrf %r/%r eu %r/%r sd %r/%r t1=%s t2=%s" % (w, o["wrf"], e, o["eu"], sd, o["sd"], now.canon(lengths=True), rt2.canon(lengths=True)))
     if moved:
         ctx.nontrivial(["edits", case["spec"], rooted_flag, case["others"], case["edits"]])
         ctx.cls("edits:%d" % moved)
